@@ -219,6 +219,35 @@ func caseC20(c *Ctx) {
 		}
 		s.Cov.N["full_registry_all_present_then_reset"]++
 	}
+	if c.Case%20 == 11 {
+		// many resets in a row (simulation runs in a loop): a resource added once and never touched again must be
+		// gone after every one of them, and a resource added in each run must be the one that is found
+		for len(s.ResIDs) < 2 {
+			s.resRegister(fmt.Sprintf("F%d", 6500+len(s.ResIDs)))
+		}
+		once := reflect.New(TypeOfKey(s.ResKeys[0])).Interface()
+		s.W.Resources().Add(s.ResIDs[0], once)
+		s.keep = append(s.keep, once)
+		runs := 300 + c.R.Intn(300)
+		for r := 0; r < runs && !s.Failed(); r++ {
+			s.W.Reset()
+			if s.W.Resources().Has(s.ResIDs[0]) || s.W.Resources().Get(s.ResIDs[0]) != nil {
+				s.fail("res.reset", "after %d resets a resource that was added before the first one and never again is present", r+1)
+				break
+			}
+			v := reflect.New(TypeOfKey(s.ResKeys[1])).Interface()
+			if s.W.Resources().Has(s.ResIDs[1]) {
+				s.fail("res.reset", "after %d resets the resource of the previous run is still present", r+1)
+				break
+			}
+			s.W.Resources().Add(s.ResIDs[1], v)
+			if ptrOf(s.W.Resources().Get(s.ResIDs[1])) != ptrOf(v) {
+				s.fail("res.get", "run %d: Get does not return the pointer added in this run", r)
+			}
+		}
+		s.W.Reset()
+		s.Cov.N["reset_marathons"]++
+	}
 	for i := 0; i < steps && !s.Failed(); i++ {
 		switch c.R.Weighted([]int{3, 6, 4, 5, 1, 2, 2, 2}) {
 		case 0: // register the next resource type
@@ -270,6 +299,12 @@ func caseC20(c *Ctx) {
 			case gen && c.R.Chance(0.5):
 				acc.addFn(s.W, v)
 			default:
+				if !gen && s.ResKeys[id][0] == 'F' && c.R.Chance(0.3) {
+					// the ID-based API stores whatever pointer it is given under the ID (no typed accessor exists for
+					// these filler types, so nothing ever asserts the type)
+					v = Pick(c.R, []any{new(int), &struct{ A, B string }{"x", "y"}, &[]int{1, 2}, new(any)})
+					s.Cov.N["res_foreign_pointer_types"]++
+				}
 				s.W.Resources().Add(s.ResIDs[id], v)
 			}
 			s.Res.Present[id] = v
